@@ -6,7 +6,8 @@ from names_common import Oracle, is_exported
 
 THEOREMS = ["C01_rename_preserves_resolution", "C01_rename_no_capture", "C01_interfaces_preserved", "C01_entry_points_kept",
             "C01_exported_methods_kept", "C01_tests_kept", "C01_plain_packages_kept", "C01_linkname_function_agrees",
-            "C01_linkname_unknown_unchanged", "C01_asm_passthrough", "C01_asm_local_reference", "C01_asm_go_agree"]
+            "C01_linkname_unknown_unchanged", "C01_asm_passthrough", "C01_asm_local_reference", "C01_asm_go_agree",
+            "C01_x_flag_duplicate", "C01_x_flag_unknown_package"]
 RUN_ARGS = [[], ["a", "b"], ["fail"], ["panic"]]
 XFLAGS = ["-ldflags=-X=main.version=v1.2.3-injected -X=example.com/corp2/internal/secret.Channel=beta-channel-injected"]
 
@@ -135,6 +136,34 @@ def asm_cases(r, n):
     return cases
 
 
+
+def linkx_cases(r, n):
+    """linker command lines with -X flags in both spellings: main.name, dotted import paths, unobfuscated and unknown packages,
+    values containing '=' and '.', a flag without '=', other linker flags around them"""
+    cases = []
+    for _ in range(n):
+        seed = bytes(r.randrange(256) for _ in range(8))
+        pkgs_all = [("example.com/corp2", "main", True), ("example.com/dotted.name/pkg", "pkg", True), ("example.com/corp2/internal/secret", "secret", True),
+                    ("example.com/plain", "plain", False), ("v2.example.org/a.b/c.d", "d", r.random() < 0.7)]
+        pk = [{"path": p, "name": nm, "to_obf": obf, "standard": False, "aid": "%02x" % (k + 1) * 15, "imports": []} for k, (p, nm, obf) in enumerate(pkgs_all)]
+        flags = ["-o", "out.bin", "-buildid=" + r.choice(["abc/def", "", "x"])]
+        for _ in range(r.randint(0, 4)):
+            path = r.choice(["main", "main", "example.com/dotted.name/pkg", "example.com/corp2/internal/secret", "example.com/plain", "v2.example.org/a.b/c.d",
+                             "unknown.org/q", "example.com/corp2"])
+            name = r.choice(["version", "Channel", "buildTag", "X"])
+            val = r.choice(["v1.2.3", "a=b", "", "with space", "-X=nested.x=y", "1.0-debug"])
+            k = r.random()
+            full = "%s.%s=%s" % (path, name, val) if k < 0.9 else "%s.%s" % (path, name)     # the latter has no '=': skipped
+            flags += ["-X=" + full] if r.random() < 0.6 else ["-X", full]
+            if r.random() < 0.3:
+                flags.append(r.choice(["-extld=gcc", "-buildmode=exe", "-s", "-w"]))
+        args = ["main.a"]
+        req = {"op": "translink", "seed": seed.hex(), "gogarble": "*", "binary_id": "07" * 15, "pkgs": pk, "cur": "example.com/corp2", "args": flags + args}
+        table = "[" + ";".join("(%s, Found %s)" % (vlib.nlist(p["path"].encode()), vlib.coq_bool(p["to_obf"])) for p in pk) + "]"
+        cases.append((req, seed, table, flags + args))
+    return cases
+
+
 def run(res, tier, seed, replay):
     r = vlib.rng(seed)
     ok, msg = vlib.run_translators()
@@ -222,6 +251,29 @@ def run(res, tier, seed, replay):
     res.cov["evaluations"] += len(alits)
     res.cov["asm_cases"] = len(alits)
     res.cov["asm_cases_skipped_listPackage_panic"] = apanics
+
+    # ---------------- 2c. transformLink's flag surgery, in particular the -X duplicates, against the model
+    xcases = linkx_cases(r, 50 if tier == "quick" else 500)
+    xouts = orc.batch([c[0] for c in xcases])
+    xlits = []
+    for (req, sd, table, argv), o in zip(xcases, xouts):
+        if "panic" in o or "err" in o:
+            res.violation("link-flags-panic", "transformLink fails on %r: %s" % (argv, o.get("panic") or o.get("err")), {"request": req})
+            continue
+        xlits.append("(%s, %s, %s, %s)" % (vlib.nlist(sd), table, "[" + ";".join(vlib.nlist(a.encode()) for a in ["-importcfg=IN"] + argv) + "]",
+                                           "[" + ";".join(vlib.nlist(a.encode()) for a in o["flags"]) + "]"))
+    xheader = lheader.replace("Model.Rename Model.Linkname.", "Model.Rename Model.Linkname Model.FlagsGen Model.LinkFlags.") + (
+        "Definition eqsl (a b : list str) : bool := beq (concat (map (fun s => 0 :: s) a)) (concat (map (fun s => 0 :: s) b)) && Nat.eqb (length a) (length b).\n"
+        "Definition s_cur : str := %s.\nDefinition s_cfg : str := %s.\n" % (vlib.nlist(b"example.com/corp2"), vlib.nlist(b"CFG")) +
+        # the package being linked is named main: its obfuscated import path is "main" also when it is addressed by its import path
+        "Definition lkx (sd : bytes) (t : list (str * lookup_result)) (p : str) : option (str * str) := "
+        "match lk t p with Found _ => Some (if beq p s_cur then s_mainpkg else ip sd t p, p) | _ => None end.\n")
+    xcheck = ("(fun c => match c with (sd, t, argv, out) => let '(f, args) := split_flags bools argv in "
+              "negb (eqsl (transform_link_flags f (x_dups (lkx sd t) (s_mainpkg, s_cur) (hn sd) f) s_cfg ++ args) out) end)")
+    badx = vlib.coq_eval_cases("c01d", xheader, "bytes * list (str * lookup_result) * list str * list str", xlits, xcheck, chunk=10)
+    mism += [("link-flags", xcases[i][3], xouts[i].get("flags")) for i in badx]
+    res.cov["evaluations"] += len(xlits)
+    res.cov["link_flag_cases"] = len(xlits)
 
     # ---------------- 3. differential runs: plain vs garbled, every argv, several configurations
     def diff_runs(tag, plain_bin, garbled_bin, argvs, ctx):
